@@ -3,7 +3,8 @@ import json
 import re
 
 ENGINE = "stack"
-RULE = ("documents x stacks of 0..3 order-sensitive probe middlewares (library probes and block probes that append their tag to "
+RULE = ("[stream textio: byte strings (documents in utf-8 / utf-16 LE+BE / latin-1 / utf-8-sig, CR and CRLF mixtures, byte order marks, every malformed utf-8 form, truncations, corruptions, lone surrogates, random bytes) read with utf-8, latin-1, utf-16 from real files and texts written with them, against the Coq model of the runtime's text layer (Model/TextIO.v, ops 180/181) and through parse_file(path, encoding, parse_stack=[]) / write_file] "
+        "documents x stacks of 0..3 order-sensitive probe middlewares (library probes and block probes that append their tag to "
         "every block's metadata trace) and shipped middlewares, in every argument position of parse_string / write_string / "
         "parse_file / write_file (none, full stack, addition, both -> ValueError), as lists, tuples, generators and iterators; files in utf-8, latin-1, gbk, "
         "utf-16 with CRLF content, matching and mismatching read encodings, path / StringIO / real file-object targets; block probes "
@@ -381,6 +382,9 @@ def generate(rng, tier):
         cases.append({"stream": "stateful", "input": inp})
     cases += proto_cases(rng, n)
     cases += env_cases(rng, n)
+    # the runtime's text layer under parse_file / write_file against Model/TextIO.v (ops 180 / 181), appended last (props/c20_textio.py)
+    from props import c20_textio
+    cases += c20_textio.generate(rng, quick)
     return cases
 
 
@@ -646,6 +650,9 @@ def rplan(rng, bad):
 def shrink(case):
     inp = case["input"]
     out = []
+    if inp.get("op") == "textio":          # shorter byte strings / texts: drop one item at a time
+        k = "data" if inp["kind"] == "read" else "text"
+        return [{"stream": case.get("stream", "shrink"), "input": dict(inp, **{k: inp[k][:i] + inp[k][i + 1:]})} for i in range(len(inp[k]))][:40]
 
     def mk(**kw):
         out.append({"stream": case.get("stream", "shrink"), "input": dict(inp, **kw)})
@@ -1290,6 +1297,9 @@ def impl(case):
         return impl_transform(inp, rec)
     if op == "stateful":
         return impl_stateful(inp, rec)
+    if op == "textio":
+        from props import c20_textio
+        return c20_textio.impl(case)
     import bibtexparser
     from bibtexparser.splitter import Splitter
     from bibtexparser import writer as W
